@@ -2,6 +2,10 @@ package main
 
 import (
 	"go/ast"
+	"go/parser"
+	"os"
+	"path/filepath"
+	"regexp"
 	"sort"
 	"strings"
 )
@@ -87,5 +91,99 @@ func genCff() {
 	lits := intLitsIn("cff/dict.go", "cffDict.encode")
 	facts["cff.encodeIntLits"] = lits
 	l.p("/-- cff/dict.go: integer literals in cffDict.encode, in source order -/\ndef cffEncodeLits : List Nat := [%s]\n", strings.Join(lits, ", "))
+	// predefined charsets (cff/charset.go) and the Expert encoding (cff/encoding.go)
+	for _, name := range []string{"isoAdobeCharset", "expertCharset", "expertSubsetCharset"} {
+		tab := mapLit("cff/charset.go", name)
+		facts["cff."+name+".len"] = len(tab)
+		l.p("\n/-- cff/charset.go: %s -/\ndef cff_%s : List String := [\n", name, name)
+		for i, e := range tab {
+			sep := ","
+			if i == 0 {
+				sep = " "
+			}
+			l.p("  %s%s\n", sep, leanStr(e.v))
+		}
+		l.p("]\n")
+	}
+	writeEnc := func(leanName, doc string, tab []kv) {
+		sort.SliceStable(tab, func(i, j int) bool { return tab[i].k < tab[j].k })
+		l.p("\n/-- %s (name, code), sorted by name -/\ndef %s : List (String × Nat) := [\n", doc, leanName)
+		for i, e := range tab {
+			sep := ","
+			if i == 0 {
+				sep = " "
+			}
+			l.p("  %s(%s, %s)\n", sep, leanStr(e.k), e.v)
+		}
+		l.p("]\n")
+	}
+	exp := mapLit("cff/encoding.go", "expertEnc")
+	facts["cff.expertEnc.len"] = len(exp)
+	writeEnc("cffExpertEnc", "cff/encoding.go: expertEnc", exp)
+
+	// the Standard encoding lives in the pinned dependency seehuhn.de/go/postscript/psenc
+	stdEnc := psencStandard()
+	facts["cff.standardEncodingRev.len"] = len(stdEnc)
+	writeEnc("cffStandardEncRev", "seehuhn.de/go/postscript/psenc (version pinned in go.mod): StandardEncodingRev", stdEnc)
 	l.write()
+}
+
+// psencStandard reads StandardEncodingRev from the module cache, at the version go.mod pins.
+func psencStandard() []kv {
+	mod, err := os.ReadFile(filepath.Join(repo, "go.mod"))
+	if err != nil {
+		fail("go.mod: %v", err)
+		return nil
+	}
+	m := regexp.MustCompile(`seehuhn\.de/go/postscript (v[^\s]+)`).FindSubmatch(mod)
+	if m == nil {
+		fail("go.mod: postscript module not found")
+		return nil
+	}
+	cache := os.Getenv("GOMODCACHE")
+	if cache == "" {
+		home, _ := os.UserHomeDir()
+		gopath := os.Getenv("GOPATH")
+		if gopath == "" {
+			gopath = filepath.Join(home, "go")
+		}
+		cache = filepath.Join(gopath, "pkg", "mod")
+	}
+	path := filepath.Join(cache, "seehuhn.de", "go", "postscript@"+string(m[1]), "psenc", "standard.go")
+	f, err := parser.ParseFile(fset, path, nil, 0)
+	if err != nil {
+		fail("psenc: %v", err)
+		return nil
+	}
+	var out []kv
+	for _, d := range f.Decls {
+		gd, ok := d.(*ast.GenDecl)
+		if !ok {
+			continue
+		}
+		for _, sp := range gd.Specs {
+			vs, ok := sp.(*ast.ValueSpec)
+			if !ok {
+				continue
+			}
+			for i, n := range vs.Names {
+				if n.Name != "StandardEncodingRev" || i >= len(vs.Values) {
+					continue
+				}
+				cl, ok := vs.Values[i].(*ast.CompositeLit)
+				if !ok {
+					continue
+				}
+				for _, el := range cl.Elts {
+					if p, ok := el.(*ast.KeyValueExpr); ok {
+						out = append(out, kv{src(p.Key), src(p.Value)})
+					}
+				}
+			}
+		}
+	}
+	if len(out) == 0 {
+		fail("psenc: StandardEncodingRev not found in %s", path)
+	}
+	return out
 }
